@@ -1679,6 +1679,9 @@ namespace ipr::impl {
 
       const ipr::Identifier& name_factory::get_identifier(const ipr::String& s)
       {
+         // Reserved words are identifiers in their own right: a spelling has one Identifier.
+         if (auto word = word_if_known(s.characters()))
+            return *word;
          return *ids.insert(s, id_compare());
       }
 
